@@ -5,6 +5,7 @@ import UflVerif.Props.C13
 import UflVerif.Props.C19
 import UflVerif.Props.C19Dispatch
 import UflVerif.Props.C20
+import UflVerif.Props.C21
 import UflVerif.Props.C24
 import UflVerif.Props.C25
 import UflVerif.Props.C26
